@@ -292,6 +292,27 @@ def build_harness(profiles=("release",)):
     return True, "\n".join(outs)
 
 
+HARNESS_NOSTD = os.path.join(VERIF, "harness_nostd")
+
+
+def build_harness_nostd(profiles=("release", "dev")):
+    lock_src = os.path.join(REPO, "Cargo.lock")
+    lock_dst = os.path.join(HARNESS_NOSTD, "Cargo.lock")
+    if not os.path.exists(lock_dst) and os.path.exists(lock_src):
+        shutil.copy(lock_src, lock_dst)
+    for prof in profiles:
+        cmd = ["cargo", "build", "--offline"] + (["--release"] if prof == "release" else [])
+        rc, out = sh(cmd, cwd=HARNESS_NOSTD, timeout=1800)
+        if rc != 0:
+            return False, out
+    return True, ""
+
+
+def run_impl_nostd(cases, profile="release", timeout=3600):
+    exe = os.path.join(HARNESS_NOSTD, "target", "release" if profile == "release" else "debug", "rqh_nostd")
+    return _run_sharded(exe, [c.impl_line() for c in cases], "nostd_" + profile, timeout)
+
+
 def harness_exe(profile="release"):
     return os.path.join(HARNESS, "target", "release" if profile == "release" else "debug", "rqh")
 
